@@ -55,7 +55,17 @@ ENTRIES = {
             "influence any of the three (map-invariance theorem). Differential check on the implementation's fitted "
             "values, exact closed form, junk-outcome variant.",
             "GLM fits assumed to solve their score equations (measured).",
-            "Lean 4 proof + translator + differential correspondence", "DESIGN.md §6 C16"),
+            "Lean 4 proof + translator + differential correspondence", "DESIGN.md §6 C16"),    'C18': ("Lean theorems for every finite graph, node/arrow order and op sequence: executable reachability = reflexive-"
+            "transitive closure of the edge relation; the code's six-step check = the moral-graph back-door criterion "
+            "(no descendant of the exposure in the set; exposure and outcome disconnected in the moral graph of the "
+            "ancestral part minus the set), invariant under reordering; a set is listed iff admissible; minimal sets = "
+            "listed sets of smallest size; an arrow / batch is rejected iff it closes a directed cycle and a rejected call "
+            "leaves the graph unchanged; acyclicity is an invariant of every op sequence. Differential check against "
+            "DirectedAcyclicGraph on all DAGs up to 5 nodes under sampled orders and three construction APIs, random and "
+            "seeded larger graphs, a malformed stream; independent path-blocking oracle for gate D.",
+            "Equivalence of the moral-graph criterion with path-blocking d-separation is tested by compiled evaluation on "
+            "all DAGs <= 5 nodes, not proved; networkx reachability measured (gate H).",
+            "Lean 4 proof (induction on edge lists / op sequences) + differential correspondence", "DESIGN.md §6 C18"),
 }
 
 NOT_APPLICABLE = {}
